@@ -990,7 +990,9 @@ impl DebugSession {
                 }
                 (MachineRunningState::Running, MachineRunningState::Running) => (),
                 (MachineRunningState::Launching, _) | (_, MachineRunningState::Launching) => {
-                    panic!("Should never receive any machine events during launch.");
+                    // e.g. a pause request that arrives before the configuration is done. There is nothing
+                    // to tell the client yet: the machine starts running once the configuration is done.
+                    log::debug!("Ignoring a machine event during launch.");
                 }
             },
             MachineEvent::Message { output, location } => {
